@@ -222,6 +222,46 @@ theorem old_history_breaks_scan :
 theorem old_fits_lossy : ∃ p ∈ grid, fitsOld p.1 p.2 = true ∧ arrow p.1 p.2 = .lossy ∧ fits p.1 p.2 = false :=
   ⟨("long", "float-fractional"), by decide +kernel, by decide +kernel, by decide +kernel, by decide +kernel⟩
 
+
+/-! ### pre-built files -/
+
+/-- an accepted pre-built file has exactly the table's Arrow schema; a table whose files all concatenate keeps doing so -/
+theorem file_keeps_scans (t : PTable) (ft : Footer) (t' : PTable) (hg : concatWorks t = true)
+    (h : appendFileWith fileAccepts t ft = some t') : ft = arrowSchema t.schema ∧ concatWorks t' = true := by
+  unfold appendFileWith at h
+  split at h
+  · rename_i hacc
+    cases h
+    have hft : ft = arrowSchema t.schema := by simpa [fileAccepts] using hacc
+    refine ⟨hft, ?_⟩
+    unfold concatWorks at *
+    simp only [List.all_append, List.all_cons, List.all_nil, Bool.and_true, Bool.and_eq_true]
+    exact ⟨hg, by simp [hft]⟩
+  · cases h
+
+/-- any history of file-level appends (accepted or rejected) keeps the table scannable -/
+theorem files_keep_scans (t : PTable) (fts : List Footer) (hg : concatWorks t = true) :
+    concatWorks (fts.foldl (fun t ft => (appendFileWith fileAccepts t ft).getD t) t) = true := by
+  induction fts generalizing t with
+  | nil => exact hg
+  | cons ft rest ih =>
+    simp only [List.foldl_cons]
+    cases hap : appendFileWith fileAccepts t ft with
+    | none => exact ih t hg
+    | some t' => exact ih t' (file_keeps_scans t ft t' hg hap).2
+
+def fbase : Schema := [⟨1, "a", "long", true⟩, ⟨2, "b", "string", false⟩]
+def pt0 : PTable := { schema := fbase, footers := [arrowSchema fbase] }
+def allNullable : Footer := [("a", "pa.int64()", true), ("b", "pa.string()", true)]
+
+/-- a check that ignores nullability accepts a file after which the table no longer concatenates -/
+theorem nullability_ignored_breaks_scan :
+    (∃ t', appendFileWith fileAcceptsNoNull pt0 allNullable = some t' ∧ concatWorks t' = false) ∧
+    appendFileWith fileAccepts pt0 allNullable = none := by
+  refine ⟨⟨_, rfl, ?_⟩, ?_⟩ <;> decide +kernel
+
+example : concatWorks pt0 = true ∧ (appendFileWith fileAccepts pt0 (arrowSchema fbase)).isSome = true := by decide +kernel
+
 /-! ### non-vacuity -/
 example : Good t0 := by unfold Good; decide +kernel
 example : ∃ t', append t0 (some base) [rec1] = .ok t' ∧ scanRows t' = [rec1] := ⟨_, rfl, by decide +kernel⟩
